@@ -82,6 +82,10 @@ def build(spec):
     common = {'copy': bool(p.get('copy', True)), 'verbose': False}
     if p.get('n_jobs'):
         common['n_jobs'] = p['n_jobs']
+    if p.get('str_nan'):
+        common['str_nan'] = p['str_nan']
+    if p.get('str_default') and cls not in ('QuantitativeDiscretizer', 'ContinuousDiscretizer', 'OrdinalDiscretizer', 'StringDiscretizer'):
+        common['str_default'] = p['str_default']
     if cls in ('BinaryCarver', 'ContinuousCarver', 'MulticlassCarver'):
         kw = dict(quantitative_features=quanti, qualitative_features=categ, ordinal_features=ordinal,
                   values_orders=orders, min_freq=min_freq, max_n_mod=p.get('max_n_mod', 5),
@@ -119,7 +123,7 @@ def build(spec):
         o = D.BaseDiscretizer(features=list(feats), values_orders=vo,
                               input_dtypes={f: ('float' if d['kind'] == 'quanti' else 'str') for f, d in feats.items()},
                               output_dtype=p.get('output_dtype', 'str'), dropna=bool(p.get('dropna', True)),
-                              str_nan=STR_NAN, str_default=STR_DEFAULT, **common)
+                              **{'str_nan': STR_NAN, 'str_default': STR_DEFAULT, **common})
     else:
         raise ValueError(cls)
     return o, X, y, fitkw
@@ -232,6 +236,8 @@ class History:
         self.events = []
         self.feature_kinds = {}       # feature name -> 'quanti' | 'quali' (for the codecs)
         self.rankings = (meta or {}).get('rankings') or {}     # ordinal feature -> user ranking (raw values)
+        self.str_nan = (meta or {}).get('str_nan') or STR_NAN
+        self.str_default = (meta or {}).get('str_default') or STR_DEFAULT
         self.notes = {}
 
     # -- helpers ------------------------------------------------------------------------------
@@ -448,7 +454,7 @@ class Encoder:
 
     def qcode(self, f, v):
         """quantitative value -> order-isomorphic rank"""
-        if isnan(v) or (isinstance(v, str) and v == STR_NAN):
+        if isnan(v) or (isinstance(v, str) and v == self.h.str_nan):
             return 0
         if isinstance(v, str):
             return 900_000 + self._intern(('qstr', f, v))
@@ -459,9 +465,9 @@ class Encoder:
 
     def ccode(self, f, v):
         """qualitative value -> identity code (python equality)"""
-        if isnan(v) or (isinstance(v, str) and v == STR_NAN):
+        if isnan(v) or (isinstance(v, str) and v == self.h.str_nan):
             return 0
-        if isinstance(v, str) and v == STR_DEFAULT:
+        if isinstance(v, str) and v == self.h.str_default:
             return -1
         tbl = self.quali_codes.setdefault(f, {})
         try:
@@ -511,10 +517,10 @@ class Encoder:
             fl = float(lab)
             return [1, int(fl)] if fl.is_integer() and abs(fl) < 100000 else [4, 0]
         if isinstance(lab, str):
-            if lab == STR_NAN:
+            if lab == self.h.str_nan:
                 return [2, 0]
             if self.h.feature_kinds.get(f) != 'quanti':
-                if lab == STR_DEFAULT:
+                if lab == self.h.str_default:
                     return [2, -1]
                 tbl = self.quali_codes.get(f, {})
                 if lab in tbl:
@@ -594,7 +600,7 @@ class Encoder:
                     fi = names.index(fn) + 1 if fn in names else 0
                     kind = h.feature_kinds.get(fn)
                     if kind == 'quanti':
-                        cont = [0] if any(isinstance(c, str) and c == STR_NAN for c in content) else []
+                        cont = [0] if any(isinstance(c, str) and c == h.str_nan for c in content) else []
                     else:
                         cont = [self.ccode(fn, c) for c in content]
                     rows.append([fi, self.out(fn, lab), cont])
